@@ -28,7 +28,9 @@ FAMS = ["single:conv@8", "single:dw@8", "single:maxpool@8", "single:avgpool@8", 
         "single:conv_dil@8", "single:dw_dil@8", "single:avgpool_s4@8", "single:split@8", "single:mul_max@8", "single:relu_chain@8",
         "single:relu@8", "single:abs@8", "single:minimum@8", "single:maximum@8", "single:conv_head",
         "single:slice_conv@8", "single:slice_conv@8", "memcpy_reshape",
-        "single:mean_axis@8", "single:pool_big@8", "single:conv_stride_asym@8", "single:squeeze_expand@8", "single:ew16"]
+        "single:mean_axis@8", "single:pool_big@8", "single:conv_stride_asym@8", "single:squeeze_expand@8", "single:ew16",
+        "single:concat_hw@8", "single:pad_conv@8", "single:fc_batch@8", "single:tconv_var", "single:resize_x@8", "single:ew_rank@8",
+        "single:conv_big_kernel@8", "single:pool_then_ew@8"]
 if os.environ.get("VERIF_C01_FAMS"):        # development aid: restrict the generated part to some families
     FAMS = os.environ["VERIF_C01_FAMS"].split(",")
 
@@ -308,7 +310,7 @@ def run(tier):
     res = vlib.Result("C01", tier, "other")
     b = vlib.build_property("C01")
     okx, xlog = vlib.build_extraction("npuExec")
-    n = 240 if tier == "quick" else 1800
+    n = 300 if tier == "quick" else 2200
     max_macs = 1200000 if tier == "quick" else 30000000
     rng = random.Random("c01/%d" % vlib.seed())
     jobs = compiles.corpus_jobs(capture=False) + compiles.plan(FAMS, n, vlib.seed(), tag="c01", capture=False)
